@@ -158,6 +158,11 @@ def _job(job):
                 r["P"] = it
                 s = (g2p.G1_to_pubkey if g == 1 else g2p.G2_to_signature)(pt(it))
                 r["s"] = list(s) if isinstance(s, (bytes, bytearray)) else f"BADVALUE:{type(s).__name__}"
+            elif op == "sq2":
+                r["v"] = it
+                F2 = pc.FQ2
+                res = pc.modular_squareroot_in_FQ2(F2(list(it)))
+                r["r"] = [] if res is None else [int(c) if isinstance(c, int) else int(c.n) for c in res.coeffs]
             elif op in ("g1p", "g2p"):
                 r["s"] = it
                 r["r"] = _proj((g2p.pubkey_to_G1 if g == 1 else g2p.signature_to_G2)(bytes(it)), d)
@@ -254,6 +259,13 @@ def build(tier, seed):
                 bs += [list(rng.randbytes(96)) for _ in range(40)]
                 bs += [[0] * 96, [255] * 96, [0xc0] + [0] * 95, [0xc0] + [0] * 94 + [1], [0xc0] + [0] * 47 + [0x80] + [0] * 47]
                 jobs.append(((name, g, "g2p", bs), None))
+                # the documented helper: the square root in Fq2 with the larger imaginary (then real) component, or None
+                q_ = INSTANCES[name]["q"] if isinstance(INSTANCES.get(name), dict) and "q" in INSTANCES[name] else None
+                if q_:
+                    vals = [[a, b] for a in range(q_) for b in range(q_)]
+                    if len(vals) > 2500:
+                        vals = rng.sample(vals, 2500) + [[0, 0], [1, 0], [0, 1], [q_ - 1, 0]]
+                    jobs.append(((name, g, "sq2", vals), None))
     work = []
     for ji, (job, claim) in enumerate(jobs):
         name, g, op, items = job
@@ -460,7 +472,11 @@ def big_rows(ctx: Ctx):
                 mkq = lambda c_: F([FQ1(c_[0]), FQ1(c_[1])])         # noqa: E731
                 pts.append((mkq(a_[0]), mkq(a_[1]), F([FQ1(1), FQ1(0)])))
                 lam = mkq((rng.randrange(1, p), rng.randrange(p)))
-                pts.append((mkq(a_[0]) * lam, mkq(a_[1]) * lam, lam))
+                try:
+                    pts.append((mkq(a_[0]) * lam, mkq(a_[1]) * lam, lam))
+                except Exception as e_:  # noqa: BLE001 -- multiplication of such elements failing: a row, not a crash
+                    rows.append({"op": "enc", "g": 2, "P": L(a_), "r": [], "w": [], "sq": 0,
+                                 "s": f"EXC:{type(e_).__name__}:{e_}"[:100]})
         for P in pts:
             enc_dec(P, d)
         # words: flag combinations x boundary values
